@@ -243,6 +243,36 @@ func (g *dgen) object(n, depth int, loc Loc) *spec.Type {
 	return o
 }
 
+// nonObject draws a payload or result that is not an object: a primitive, an array or a map (the whole body).
+func (g *dgen) nonObject(what string) *spec.Attr {
+	t := g.t
+	var a *spec.Attr
+	switch t.Pick("non-object-kind", 3, 3, 2) {
+	case 0:
+		a = g.prim(LocBody)
+		for a.Type.Kind == spec.Any {
+			a = g.prim(LocBody)
+		}
+		g.feat(what + ":primitive")
+	case 1:
+		el := g.bodyType(1)
+		if el.Type.Kind == spec.Object {
+			el = g.prim(LocBody)
+		}
+		a = &spec.Attr{Type: &spec.Type{Kind: spec.Array, Elem: el}}
+		a.Val = g.validation(spec.Array, LocBody)
+		g.feat(what + ":array")
+	default:
+		el := g.bodyType(1)
+		if el.Type.Kind == spec.Object {
+			el = g.prim(LocBody)
+		}
+		a = &spec.Attr{Type: &spec.Type{Kind: spec.Map, Key: &spec.Attr{Type: &spec.Type{Kind: spec.String}}, Elem: el}}
+		g.feat(what + ":map")
+	}
+	return a
+}
+
 // extend may make an object extend an earlier plain object type (DSL Extend): the base's attributes,
 // required list and validations are merged in. Returns true when it did.
 func (g *dgen) extend(o *spec.Type) bool {
@@ -386,7 +416,15 @@ func (g *dgen) method(svc *spec.Service, idx int) *spec.Method {
 	// ---- payload
 	path := "/" + svc.Name + "/" + m.Name
 	hasBody := false
-	if t.Draw("has-payload", 8) != 7 {
+	plain := false
+	if t.Draw("payload-not-an-object", 9) == 0 {
+		// the payload is a primitive, an array or a map: it is the whole request body
+		m.Payload = g.nonObject("payload")
+		hasBody, plain = true, true
+		if len(svc.Security) > 0 || len(g.d.Security) > 0 {
+			m.NoSec = true // credentials are payload attributes: a payload without attributes cannot carry any
+		}
+	} else if t.Draw("has-payload", 8) != 7 {
 		p := &spec.Type{Kind: spec.Object}
 		nf := 1 + t.Draw("npayload", 6)
 		off := t.Draw("name-off", len(attrNames))
@@ -472,7 +510,9 @@ func (g *dgen) method(svc *spec.Service, idx int) *spec.Method {
 	} else {
 		g.feat("payload:none")
 	}
-	g.secure(svc, m, &path)
+	if !plain {
+		g.secure(svc, m, &path)
+	}
 	verb := "GET"
 	if hasBody {
 		verb = []string{"POST", "PUT", "PATCH"}[t.Draw("verb-body", 3)]
@@ -512,6 +552,9 @@ func (g *dgen) method(svc *spec.Service, idx int) *spec.Method {
 		}
 		m.Responses = []*spec.Response{{Status: 200}}
 		g.feat("result:result-type")
+	} else if t.Draw("result-not-an-object", 8) == 0 {
+		m.Result = g.nonObject("result")
+		m.Responses = []*spec.Response{{Status: []int{200, 201, 202}[t.Pick("status", 4, 1, 1)]}}
 	} else if t.Draw("has-result", 6) != 5 {
 		r := &spec.Type{Kind: spec.Object}
 		resp := &spec.Response{Status: []int{200, 201, 202}[t.Pick("status", 4, 1, 1)], Headers: map[string]string{}, Cookies: map[string]string{}}
